@@ -9,6 +9,7 @@ object is a declared sh:NodeShape, every property shape has exactly one path.
 Root causes of the known findings are computed here from the property text:
   rc_custom_shapes_namespace  shapes_namespace is not the default one
   rc_shared_local_name        two class IRIs of the run share their local name
+  rc_parsed_prefix_collision  the rdflib-parsed input declares one of the default shape prefixes
 """
 import glob
 import os
@@ -42,6 +43,8 @@ def _impl_other(ts, cfg, kind, timeout=10.0):
         return pipe.impl_shexc(ts, cfg, timeout=timeout,
                                extra_kw={"shape_map_raw": cfg["_shape_map"], "all_classes_mode": False,
                                          "target_classes": None})
+    if kind == "shexc_ttl":           # Turtle input parsed by rdflib (its prefixes are adopted): oracle-only
+        return pipe.impl_shexc(ts, cfg, doc=cfg["_doc"], timeout=timeout, extra_kw={"input_format": "turtle"})
     return _orig_impl_other(ts, cfg, kind, timeout)
 
 
@@ -137,6 +140,11 @@ def shape_map_for(ts, cfg, r):
     return "\n".join(lines)
 
 
+def turtle_doc(ts, prefix):
+    """the triples as a Turtle document that declares `prefix` for http://ex.org/ (rdflib hands it to sheXer)"""
+    return "@prefix %s: <http://ex.org/> .\n" % prefix + pipe.nt_doc(ts)
+
+
 def c05_cfg(r, ts, idx):
     cfg = pipeprops.random_cfg(r, ts, idx)
     k = r.random()
@@ -182,6 +190,12 @@ def gen_cases(tier, rnd):
             r.shuffle(cfg["ns"])
             runs = [(ts, cfg, "shexc_only")]
             stream = "random-prefix-fallback"
+        elif i % 40 == 21:
+            cfg["ns"] = [x for x in cfg["ns"] if x[0] != "http://ex.org/" and x[1] not in ("", "ex")]
+            cfg["_doc_prefix"] = r.choice(["", "", "ex", "weso-s"])
+            cfg["_doc"] = turtle_doc(ts, cfg["_doc_prefix"])
+            runs = [(ts, cfg, "shexc_ttl")]
+            stream = "turtle-parsed-prefixes"
         elif i % 16 == 13:
             cfg["_shape_map"] = shape_map_for(ts, cfg, r)
             cfg["all_classes"] = False
@@ -190,7 +204,7 @@ def gen_cases(tier, rnd):
             stream = "shape-map-labels"
         else:
             runs = [(ts, cfg)]
-        if i % 2 == 0 and "_shape_map" not in cfg:
+        if i % 2 == 0 and "_shape_map" not in cfg and "_doc" not in cfg:
             sc = dict(cfg)
             sc["disable_or_statements"] = True      # SHACL is specified for the default only
             sc["allow_redundant_or"] = False
@@ -242,6 +256,12 @@ def check_shacl(text):
 
 
 def root_cause(check, ts, cfg):
+    if check == "prefixes_functional" and "_doc_prefix" in cfg:
+        # the parsed document declares the very prefix the constructor picks for the shapes namespace
+        taken = [x[1] for x in cfg["ns"]]
+        chosen = [p for p in PRIORITY if p not in taken][:1]
+        if chosen and chosen[0] == cfg["_doc_prefix"]:
+            return "rc_parsed_prefix_collision"
     if check in ("refs_resolve", "node") and cfg["shapes_ns"] != DEFAULT_NS:
         return "rc_custom_shapes_namespace"
     if check == "labels_distinct" and shared_local_names(ts, cfg):
@@ -264,15 +284,17 @@ def fallback_prefix_ok(text, cfg):
 
 class Spec(pipeprops.PropSpec):
     pid = "C05"
-    theorems = ("C05_prefix_map_functional, C05_tokens_declared, C05_lines_recognised, C05_document_recognised, "
-                "C05_closed_text (Props/C05.v)")
+    theorems = ("C05_prefix_map_functional, C05_prefix_fallback_iff, C05_prefix_overwrite, C05_tokens_declared, "
+                "C05_tokens_local_clean, C05_tokens_pname, C05_lines_recognised, C05_document_recognised, "
+                "C05_closed_text, C05_wellformed_closed_partial (Props/C05.v)")
     projection = staticmethod(pipeprops.proj_text)
     projection_name = "ShExC text, byte for byte (after the ratio shim)"
     rule = ("C01's graphs (general and schema-consistent, one or two namespaces) x all 2^6 switch assignments "
             "round-robin x thresholds on every k/n boundary x targets/all-classes x caps x remove_empty on/off x OR "
             "on/off x user dictionaries colliding with 0-3 of the default shape prefixes ('', weso-s, shapes, w-shapes) "
             "or naming the shapes namespace; streams: all four prefixes taken (random fallback, oracle only), shape-map "
-            "labels as full IRIs / prefixed names with nodes without triples (oracle only), custom "
+            "labels as full IRIs / prefixed names with nodes without triples (oracle only), Turtle input whose parsed "
+            "prefixes are adopted (oracle only; finding when it declares a default shape prefix), custom "
             "shapes_namespace (finding), two classes sharing a local name (finding), local names with dots/dashes/"
             "leading digits; every second case also SHACL; distinct = distinct (document, configuration); "
             "non-trivial = some class with >= 2 instances and some non-typing triple")
@@ -285,7 +307,9 @@ class Spec(pipeprops.PropSpec):
 
     def gen_cases(self, tier, rnd):
         self.golden_note = golden_calibration()
-        return gen_cases(tier, rnd)
+        cases = gen_cases(tier, rnd)
+        self.golden_note += ".  " + domain_statistics(cases, 4000 if tier == "thorough" else 800)
+        return cases
 
     def oracle(self, case, impl):
         fails, n = [], 0
@@ -294,9 +318,15 @@ class Spec(pipeprops.PropSpec):
             kind = rn[2] if len(rn) > 2 else "shexc"
             if res[0] != "ok":
                 continue                      # crashes are C04's subject
-            if kind in ("shexc", "shexc_only", "shexc_map"):
+            if kind in ("shexc", "shexc_only", "shexc_map", "shexc_ttl"):
                 n += 1
                 bad = recognise(res[1])
+                if bad is not None and kind == "shexc" and in_proved_domain(ts, cfg):
+                    # the theorem says this cannot happen for the model's text, and the correspondence says the
+                    # real text is the model's: never attributed to a known finding
+                    fails.append((None, "inside C05_dom with refs_closed and distinct labels, yet check %s fails "
+                                        "(theorem C05_wellformed_closed_partial vs implementation)" % bad[0]))
+                    continue
                 if bad is not None:
                     check, pos, detail = bad
                     ctx = res[1][max(0, pos - 40):pos + 20] if check in ("lex", "parse") else detail
@@ -317,6 +347,37 @@ class Spec(pipeprops.PropSpec):
         return ("C05_dom: default shapes_namespace, class IRIs with pairwise distinct shape labels, user dictionary "
                 "with valid pairwise distinct prefixes not taking all four priority prefixes, IRIs made of IRIREF "
                 "characters whose local names are PN_LOCAL.  " + self.golden_note)
+
+
+def dom_row(mb, ts, cfg):
+    """[ran, C05_dom, refs_closed, labels distinct] of the model's shape list for this run"""
+    return [x == "1" for x in mb.call("c05_dom", pipe.model_table(ts, cfg))[0]]
+
+
+def in_proved_domain(ts, cfg):
+    return all(dom_row(pipeprops._mb(), ts, cfg))
+
+
+def domain_statistics(cases, limit):
+    """how many generated ShExC runs satisfy the hypotheses of C05_wellformed_closed_partial (evaluated by the model binary)"""
+    mb = core.ModelBin()
+    stats = {}
+    n = 0
+    for c in cases:
+        for rn in c["runs"]:
+            if len(rn) > 2:
+                continue
+            if n >= limit:
+                break
+            n += 1
+            ran, dom, refs, nodup = dom_row(mb, rn[0], rn[1])
+            key = "model-error" if not ran else ("inside" if dom and refs and nodup else
+                                                 "outside:" + ",".join(k for k, v in (("C05_dom", dom), ("refs_closed", refs),
+                                                                                       ("labels_distinct", nodup)) if not v))
+            stats[key] = stats.get(key, 0) + 1
+    mb.close()
+    return "hypotheses of C05_wellformed_closed_partial on %d generated ShExC runs: %s" % (
+        n, ", ".join("%s %d" % kv for kv in sorted(stats.items())))
 
 
 def golden_calibration():
